@@ -120,6 +120,7 @@ fn dec_check<'a>(ctx: &Ctx) -> DecCheck<'a> {
         profile: Profile { max_tokens: ctx.tier.pick(10, 40), small_caps_weight: 100, queries: false, exact_queries: false, modes: &hist::ALL_MODES, sinks: &[Sink::Str, Sink::String, Sink::Str, Sink::Utf8, Sink::Utf16], bom_prefix_weight: 32 },
         fills: vec![1, 2, 3, 2, 3, 0],
         mixed_sinks: true,
+        mixed_all: false,
     }
 }
 
